@@ -202,12 +202,13 @@ type callResult struct {
 	ret   int64
 	ms    []measurements.Measurement
 	msRet []measurements.Measurement // copy of ms taken at the instant the call returned
+	j     int64                      // what collectMeasurements returned (raw calls only)
 	comps []int64
 }
 
 // prepareCall sets up one call on collector c as of now; run performs it (synchronously,
 // recording how it ended); teardown cancels its context and releases its blocked clocks.
-func prepareCall(c *client.ReferenceClockClient, rd round) (res *callResult, run func(), teardown func()) {
+func prepareCall(c *client.ReferenceClockClient, rd round, raw bool) (res *callResult, run func(), teardown func()) {
 	res = &callResult{cls: -1, ret: -1, comps: make([]int64, len(rd.clocks))}
 	start := time.Now()
 	release := make(chan struct{})
@@ -236,10 +237,24 @@ func prepareCall(c *client.ReferenceClockClient, rd round) (res *callResult, run
 				res.mu.Unlock()
 			}
 		}()
-		c.MeasureClockOffsets(ctx, clks, res.ms)
+		j := -1
+		if raw {
+			// collectMeasurements itself (through the hook), fed by producers of the harness that
+			// do what MeasureClockOffsets' producers do
+			msc := make(chan measurements.Measurement)
+			for _, clk := range clks {
+				go func(clk client.ReferenceClock) {
+					ts, off, err := clk.MeasureClockOffset(ctx)
+					msc <- measurements.Measurement{Timestamp: ts, Offset: off, Error: err}
+				}(clk)
+			}
+			j = client.VerifCollectMeasurements(ctx, res.ms, msc)
+		} else {
+			c.MeasureClockOffsets(ctx, clks, res.ms)
+		}
 		d := unscale(time.Since(start))
 		res.mu.Lock()
-		res.cls, res.ret = 0, d
+		res.cls, res.ret, res.j = 0, d, int64(j)
 		res.msRet = append([]measurements.Measurement(nil), res.ms...)
 		res.mu.Unlock()
 	}
@@ -407,7 +422,7 @@ func (r *callResult) lateWrite() int64 {
 	return 0
 }
 
-func runCollect(tags string, rd round, probes []int64) {
+func runCollect(tags string, rd round, probes []int64, raw bool) {
 	counts := make([]int64, len(probes))
 	var res *callResult
 	var comps []int64
@@ -415,7 +430,7 @@ func runCollect(tags string, rd round, probes []int64) {
 	dead, hung := bubble(func() {
 		start := time.Now()
 		var c client.ReferenceClockClient
-		r, run, teardown := prepareCall(&c, rd)
+		r, run, teardown := prepareCall(&c, rd, raw)
 		res = r
 		go run()
 		last := int64(0)
@@ -451,6 +466,12 @@ func runCollect(tags string, rd round, probes []int64) {
 			stopAfterHang()
 		}
 	}()
+	if raw {
+		w.Case("collect.raw", tags,
+			lib.V(fmtCtx(rd), fmtScripts(rd.clocks), fmtMrecs(rd.ms0), lib.IL(probes)),
+			lib.V(lib.I(cls), lib.I(ret), lib.I(res.j), ms, lib.IL(comps), lib.IL(counts), lib.I(after), lib.I(res.lateWrite())))
+		return
+	}
 	w.Case("collect", tags,
 		lib.V(fmtCtx(rd), fmtScripts(rd.clocks), fmtMrecs(rd.ms0), lib.IL(probes)),
 		lib.V(lib.I(cls), lib.I(ret), ms, lib.IL(comps), lib.IL(counts), lib.I(after), lib.I(res.lateWrite())))
@@ -473,7 +494,7 @@ func runHistory(kind, tags string, ops []round, tend int64, variant int) {
 			var gate atomic.Bool
 			var ready sync.WaitGroup
 			for i, op := range ops {
-				r, run, teardown := prepareCall(&c, op)
+				r, run, teardown := prepareCall(&c, op, false)
 				results[i] = r
 				teardowns = append(teardowns, teardown)
 				ready.Add(1)
@@ -500,7 +521,7 @@ func runHistory(kind, tags string, ops []round, tend int64, variant int) {
 		} else {
 			for i, op := range ops {
 				sleepUntil(start, scale*time.Duration(op.start))
-				r, run, teardown := prepareCall(&c, op)
+				r, run, teardown := prepareCall(&c, op, false)
 				results[i] = r
 				teardowns = append(teardowns, teardown)
 				go run()
@@ -884,11 +905,11 @@ func genProbes(r *lib.Rng, rd *round) []int64 {
 	return ps
 }
 
-func genCollect(r *lib.Rng) {
+func genCollect(r *lib.Rng, raw bool) {
 	rd := genRound(r, 7)
 	probes := genProbes(r, &rd)
 	tags, nt := roundTags(rd)
-	if r.Intn(25) == 0 { // lengths differ: refused before anything starts
+	if !raw && r.Intn(25) == 0 { // lengths differ: refused before anything starts
 		if r.Bool() || len(rd.ms0) == 0 {
 			rd.ms0 = append(rd.ms0, mrec{ts: 1, off: 2})
 		} else {
@@ -899,7 +920,7 @@ func genCollect(r *lib.Rng) {
 	if nt {
 		tags = append(tags, "nt")
 	}
-	runCollect(strings.Join(tags, ","), rd, probes)
+	runCollect(strings.Join(tags, ","), rd, probes, raw)
 }
 
 // rounds of a history: an "open" context (done only by the harness's final cancel) would keep
@@ -1123,10 +1144,10 @@ func ctxOf(v val, rd *round) {
 func replay(kind, tags, args string) {
 	vs := parseVals(args)
 	switch kind {
-	case "collect":
+	case "collect", "collect.raw":
 		rd := round{clocks: scriptsOf(vs[1]), ms0: mrecsOf(vs[2])}
 		ctxOf(vs[0], &rd)
-		runCollect(tags, rd, intsOf(vs[3]))
+		runCollect(tags, rd, intsOf(vs[3]), kind == "collect.raw")
 	case "history", "race":
 		var ops []round
 		for _, o := range vs[0].list {
@@ -1151,9 +1172,9 @@ func main() {
 		return
 	}
 	r := lib.NewRng(a.Seed)
-	nc, nh, nr, ns := 3500, 3500, 5000, 2500
+	nc, nh, nr, ns, nw := 3500, 3500, 5000, 2500, 3000
 	if a.Tier == "thorough" {
-		nc, nh, nr, ns = 60000, 50000, 60000, 40000
+		nc, nh, nr, ns, nw = 60000, 50000, 60000, 40000, 40000
 	}
 	corpus()
 	syncCorpus()
@@ -1163,8 +1184,11 @@ func main() {
 			genSync(r)
 		}
 		if i < nc {
-			genCollect(r)
-			genCollect(r.Fork())
+			genCollect(r, false)
+			genCollect(r.Fork(), false)
+		}
+		if i < nw {
+			genCollect(r, true)
 		}
 		if i < nh {
 			genHistory(r)
@@ -1178,6 +1202,10 @@ func main() {
 
 // fixed cases run first: the situations the property names
 func corpus() {
+	rc := func(tags string, rd round, probes []int64) {
+		runCollect(tags, rd, probes, false)
+		runCollect(tags, rd, probes, true)
+	}
 	ok := func(kind, t, e, id int64) script {
 		return script{kind: kind, t: t, e: e, ok: true, ts: 1700000000000000000 + id, off: 1000 + id}
 	}
@@ -1193,21 +1221,24 @@ func corpus() {
 		return round{start: start, hasD: true, D: D, F: F, clocks: clocks, ms0: ms0}
 	}
 	// a blocked clock far beyond the deadline, a fast one, a failing one
-	runCollect("late,early,fail,nt", dl(0, 100, 4011, []script{ok(3, 4000, 0, 0), ok(0, 10, 0, 1), bad(0, 20, 0, 2)}, st(3)), []int64{0, 99, 100, 101, 4000, 4010})
+	rc("late,early,fail,nt", dl(0, 100, 4011, []script{ok(3, 4000, 0, 0), ok(0, 10, 0, 1), bad(0, 20, 0, 2)}, st(3)), []int64{0, 99, 100, 101, 4000, 4010})
 	// all clocks wait for the cancellation
-	runCollect("tie,nt", dl(0, 50, 61, []script{ok(2, 0, 0, 0), ok(2, 0, 0, 1), bad(2, 0, 3, 2)}, st(3)), []int64{49, 50, 53, 60})
+	rc("tie,nt", dl(0, 50, 61, []script{ok(2, 0, 0, 0), ok(2, 0, 0, 1), bad(2, 0, 3, 2)}, st(3)), []int64{49, 50, 53, 60})
 	// no clocks at all
-	runCollect("n0", dl(0, 10, 12, nil, nil), []int64{0, 10, 11})
+	rc("n0", dl(0, 10, 12, nil, nil), []int64{0, 10, 11})
 	// deadline already over
-	runCollect("expired,tie,nt", dl(0, 0, 7, []script{ok(0, 0, 0, 0), ok(0, 5, 0, 1)}, st(2)), []int64{0, 5, 6})
+	rc("expired,tie,nt", dl(0, 0, 7, []script{ok(0, 0, 0, 0), ok(0, 5, 0, 1)}, st(2)), []int64{0, 5, 6})
 	// cancelled explicitly long before the deadline, with a clock that never completes and one that waits for the cancellation
-	runCollect("xcancel,never,early,late,nt", round{hasD: true, D: 100000, hasC: true, C: 40, F: 500,
+	rc("xcancel,never,early,late,nt", round{hasD: true, D: 100000, hasC: true, C: 40, F: 500,
 		clocks: []script{ok(4, 0, 0, 0), ok(0, 10, 0, 1), ok(2, 0, 5, 2), ok(0, 300, 0, 3)}, ms0: st(4)}, []int64{0, 39, 40, 41, 45, 300, 499})
 	// no deadline, cancelled explicitly
-	runCollect("nodl,xcancel,late,nt", round{hasC: true, C: 70, F: 200,
+	rc("nodl,xcancel,late,nt", round{hasC: true, C: 70, F: 200,
 		clocks: []script{ok(0, 10, 0, 0), bad(3, 20, 0, 1), ok(3, 150, 0, 2)}, ms0: st(3)}, []int64{69, 70, 71, 150, 199})
 	// no deadline, never cancelled before every clock has completed: returns with the last clock
-	runCollect("nodl,open,allearly", round{F: 1000, clocks: []script{ok(0, 10, 0, 0), ok(3, 600, 0, 1), bad(1, 40, 0, 2)}, ms0: st(3)}, []int64{0, 599, 600, 601, 999})
+	rc("nodl,open,allearly", round{F: 1000, clocks: []script{ok(0, 10, 0, 0), ok(3, 600, 0, 1), bad(1, 40, 0, 2)}, ms0: st(3)}, []int64{0, 599, 600, 601, 999})
+	// results that look like nothing: zero time and zero offset are successes like any other
+	rc("early,late,nt", dl(0, 100, 400, []script{{kind: 0, t: 10, ok: true, ts: zeroTS, off: 0}, {kind: 0, t: 20, ok: true, ts: zeroTS, off: 7}, {kind: 0, t: 30, ok: true, ts: 5, off: 0},
+		{kind: 0, t: 40, ok: false, ek: 2, ts: 9, off: 9}, {kind: 2, ok: false, ek: 3, ts: 10, off: 10}, {kind: 0, t: 300, ok: true, ts: 11, off: 11}}, st(6)), []int64{0, 50, 100, 101, 300, 399})
 	// second call while the first is in progress, then again, then after it returned
 	one := dl(0, 100, 701, []script{ok(0, 60, 0, 0), ok(3, 500, 0, 1)}, st(2))
 	two := dl(10, 100, 691, nil, nil)
@@ -1224,7 +1255,14 @@ func corpus() {
 	c1 := dl(5, 100, 300, []script{ok(0, 60, 0, 0)}, st(1))
 	c2 := dl(5, 100, 300, []script{ok(0, 70, 0, 1)}, st(1))
 	c3 := dl(5, 100, 300, []script{ok(2, 0, 0, 2)}, st(1))
+	callers, yield := []round{c1, c2, c3}, 0
+	if runtime.NumCPU() < 4 {
+		callers = callers[:2]
+		if runtime.NumCPU() < 3 {
+			yield = 1 << 12
+		}
+	}
 	for v := 0; v < 100; v++ {
-		runHistory("race", "race,contended,nt", []round{c1, c2, c3}, 304, (v*397)&(1<<12-1))
+		runHistory("race", "race,contended,nt", callers, 304, (v*397)&(1<<12-1)|yield)
 	}
 }
